@@ -9,6 +9,7 @@ NAME_SCHEMES = {
     'q': lambda i: 'q%d' % i,
     'r': lambda i: 'r%d' % i,
     'x': lambda i: ['start', 'accept', 'trap1', 'P1', 'M1', 'q_accept', 'q_initial'][i],
+    'p': lambda i: ['q_accept', 'q_initial', 'M1', 'q_accept1'][i],
     'z': lambda i: ['r', 'a', 'b', 'f', 'c', 'd'][i],   # single letters (C15 back-pointer order)
 }
 
